@@ -199,6 +199,8 @@ func (e *Exec) patternIntrinsicHarness(fn *ssa.Function, name string) Intrinsic 
 				e.Merge = val != 0
 			case "branch_timeout_ms":
 				e.BranchTimeoutMs = val
+			case "lazy":
+				e.Lazy = val != 0
 			case "bitlen_dense":
 				e.BitLenDense = val
 			default:
@@ -214,17 +216,20 @@ func (e *Exec) patternIntrinsicHarness(fn *ssa.Function, name string) Intrinsic 
 			if iv, ok := target.(Iface); ok {
 				target = iv.V
 			}
-			if e.Overrides == nil {
-				e.Overrides = map[string]Intrinsic{}
+			nm := map[string]Intrinsic{}
+			for k, v := range st.Overrides {
+				nm[k] = v
 			}
 			if target == nil {
-				delete(e.Overrides, name)
+				delete(nm, name)
+				st.Overrides = nm
 				return ret1(st, nil)
 			}
 			e.ContractsUsed = append(e.ContractsUsed, name)
-			e.Overrides[name] = func(e *Exec, st *State, fn *ssa.Function, a []Value, depth int) []Outcome {
+			nm[name] = func(e *Exec, st *State, fn *ssa.Function, a []Value, depth int) []Outcome {
 				return e.callValue(st, target, a, nil, depth+1, nil)
 			}
+			st.Overrides = nm
 			return ret1(st, nil)
 		}
 	case "vTier":
